@@ -63,6 +63,15 @@ pub fn sigma() -> Vec<Op> {
         Op::MkfileM(s("/d/f"), 0o600),             // 35
         Op::WriteHandle(s("/d/f"), vec![b"h".to_vec(), b"i".to_vec()], vec![true, false]), // 36
         Op::AppendHandle(s("/d/f"), vec![b"j".to_vec(), b"k".to_vec()], vec![true, false]), // 37
+        // relative arguments: both paths of one call must be resolved against the same cwd
+        Op::Copy(s("f"), s("g")),                  // 38
+        Op::MoveP(s("f"), s("g")),                 // 39
+        Op::Symlink(s("l"), s("f")),               // 40
+        Op::SetCwd(s("/e")),                       // 41
+        Op::SetCwd(s("/")),                        // 42
+        Op::WriteAll(s("f"), b"R".to_vec()),       // 43
+        Op::ReadAll(s("f")),                       // 44
+        Op::Paths(s(".")),                         // 45
     ]
 }
 
@@ -77,6 +86,7 @@ pub fn inits() -> Vec<(&'static str, Vec<Op>)> {
         ("empty", vec![]),
         ("/d/f=\"0\"", vec![Op::MkdirP(s("/d")), Op::WriteAll(s("/d/f"), b"0".to_vec())]),
         ("/d empty, /e=\"e\"", vec![Op::MkdirP(s("/d")), Op::WriteAll(s("/e"), b"e".to_vec())]),
+        ("/d/f=\"0\", /e empty, cwd /d", vec![Op::MkdirP(s("/d")), Op::WriteAll(s("/d/f"), b"0".to_vec()), Op::MkdirP(s("/e")), Op::SetCwd(s("/d"))]),
     ]
 }
 
@@ -355,6 +365,8 @@ fn programs_tk(alpha: &[usize], threads: usize, k: usize) -> Vec<Prog> {
 
 struct Family {
     name: &'static str,
+    /// initial states the family runs from (None = all)
+    inits: Option<Vec<usize>>,
     progs: Vec<Prog>,
     bound: Option<u32>,
     cap: u64,
@@ -363,14 +375,15 @@ struct Family {
 fn families(tier: Tier) -> Vec<Family> {
     let all: Vec<usize> = (0..sigma().len()).collect();
     let atomic: Vec<usize> = (0..N_ATOMIC).collect();
+    let relcore: Vec<usize> = vec![38, 39, 40, 41, 42, 43, 44];
     let core10: Vec<usize> = vec![0, 2, 4, 5, 6, 7, 8, 9, 10, 28];
     let core6: Vec<usize> = vec![0, 2, 6, 7, 8, 28];
     let core5: Vec<usize> = vec![0, 2, 4, 8, 9];
     let core3: Vec<usize> = vec![0, 2, 8];
     let mut f = vec![
-        Family { name: "2x1 over the full alphabet", progs: programs_tk(&all, 2, 1), bound: None, cap: 200_000 },
-        Family { name: "3x1 over the atomic alphabet", progs: programs_tk(&atomic, 3, 1), bound: None, cap: 200_000 },
-        Family { name: "2x2 over a 10-call core", progs: programs_tk(&core10, 2, 2), bound: None, cap: 200_000 },
+        Family { name: "2x1 over the full alphabet", inits: None, progs: programs_tk(&all, 2, 1), bound: None, cap: 200_000 },
+        Family { name: "3x1 over the atomic alphabet", inits: None, progs: programs_tk(&atomic, 3, 1), bound: None, cap: 200_000 },
+        Family { name: "2x2 over a 10-call core", inits: None, progs: programs_tk(&core10, 2, 2), bound: None, cap: 200_000 },
     ];
     // a write/append handle that stays open (open, write, flush, write, drop = several critical sections)
     // while another thread removes / re-creates / moves the file's name in two steps
@@ -384,12 +397,14 @@ fn families(tier: Tier) -> Vec<Family> {
             hp.push(vec![vec![h], b.clone(), vec![31]]);
         }
     }
-    f.push(Family { name: "open write/append handle x 2 calls on the same name", progs: hp, bound: None, cap: 200_000 });
+    f.push(Family { name: "open write/append handle x 2 calls on the same name", inits: None, progs: hp, bound: None, cap: 200_000 });
+    // relative arguments against a moving cwd (both paths of a two-path call resolve against one cwd)
+    f.push(Family { name: "2x2 over the relative-argument core, cwd /d", inits: Some(vec![3]), progs: programs_tk(&relcore, 2, 2), bound: None, cap: 200_000 });
     if tier == Tier::Thorough {
-        f.push(Family { name: "2x2 over the atomic alphabet", progs: programs_tk(&atomic, 2, 2), bound: None, cap: 200_000 });
-        f.push(Family { name: "2x3 over a 6-call core", progs: programs_tk(&core6, 2, 3), bound: None, cap: 200_000 });
-        f.push(Family { name: "3x2 over a 5-call core", progs: programs_tk(&core5, 3, 2), bound: None, cap: 200_000 });
-        f.push(Family { name: "3x3 over a 3-call core (preemption bound 2)", progs: programs_tk(&core3, 3, 3), bound: Some(2), cap: 200_000 });
+        f.push(Family { name: "2x2 over the atomic alphabet", inits: None, progs: programs_tk(&atomic, 2, 2), bound: None, cap: 200_000 });
+        f.push(Family { name: "2x3 over a 6-call core", inits: None, progs: programs_tk(&core6, 2, 3), bound: None, cap: 200_000 });
+        f.push(Family { name: "3x2 over a 5-call core", inits: None, progs: programs_tk(&core5, 3, 2), bound: None, cap: 200_000 });
+        f.push(Family { name: "3x3 over a 3-call core (preemption bound 2)", inits: None, progs: programs_tk(&core3, 3, 3), bound: Some(2), cap: 200_000 });
     }
     f
 }
@@ -430,7 +445,8 @@ pub fn run(ctx: &Ctx) -> i32 {
     let slots = (ctx.threads * 3 / 2).max(1);
     for fam in families(ctx.tier) {
         let before = (tot.programs.load(Ordering::Relaxed), tot.schedules.load(Ordering::Relaxed));
-        let work: Vec<(usize, &Prog)> = (0..inits().len()).flat_map(|i| fam.progs.iter().map(move |p| (i, p))).collect();
+        let fam_inits: Vec<usize> = fam.inits.clone().unwrap_or_else(|| (0..inits().len()).collect());
+        let work: Vec<(usize, &Prog)> = fam_inits.iter().flat_map(|&i| fam.progs.iter().map(move |p| (i, p))).collect();
         let next = std::sync::atomic::AtomicUsize::new(0);
         std::thread::scope(|sc| {
             for slot_id in 0..slots {
